@@ -1714,6 +1714,20 @@ def k_protected(repo):
         tkz = [t for t in lex(wb) if t[0] != "eof"]
         want = [t for t in lex("{ if data.is_empty() { return Ok(()); }") if t[0] != "eof"]
         guard_rows.append((fn, tkz[:len(want)] == want))
+    # the advice given to madvise next to locking / unlocking (exclude from / include in core dumps — never anything that discards pages)
+    adv_rows = []
+    for fn in ("dryoc_mlock", "dryoc_munlock"):
+        _, _, wb = find_fn(src, fn)
+        calls = list(re.finditer(r"\bmadvise\s*\(", wb))
+        if len(calls) != 1:
+            fail("%s: expected exactly one madvise call" % fn)
+        pz = Parser(lex(wb[calls[0].end() - 1:]))
+        pz.expect("(")
+        a = pz.args()
+        if len(a) != 3 or norm_text(a[0]) != "data.as_ptr()" or norm_text(a[1]) != "data.len()":
+            fail("%s: madvise arguments" % fn)
+        adv_rows.append((fn, norm_text(a[2])))
+    out += "def madvise_advice : List (String × String) := [%s]\n\n" % ", ".join('("%s", "%s")' % r for r in adv_rows)
     out += "def syscall_addr_args : List (String × String) := [%s]\n\n" % ", ".join('("%s", "%s")' % r for r in addr_rows)
     out += "def empty_slice_guards : List (String × Bool) := [%s]\n\n" % ", ".join('("%s", %s)' % (n, "true" if v else "false") for n, v in guard_rows)
     # the five type-state transitions: which wrapper is called on which slice, that its failure returns (`?`) BEFORE the record is
